@@ -21,7 +21,7 @@ def runs(tier):
     out.append(dict(name='td2', constants=dict(base, MaxD=2, MaxDB=2, Scenarios={'td'}, Ops={'Tensordot'}, OWs=ow,
                                                RanksS={2} if q else {1, 2}, KindPairs={('real', 'complex')})))
     out.append(dict(name='td3', constants=dict(base, MaxD=3, MaxDB=3, DimsC={1}, RanksS={2}, OWs=ow,
-                                               Scenarios={'td'}, Ops={'Tensordot'}, KindPairs={('real', 'complex')})))
+                                               Scenarios={'td'}, Ops={'Tensordot'}, KindPairs={('mixed1', 'mixedL')} if q else {('real', 'complex'), ('mixed1', 'mixedL')})))
     out.append(dict(name='tdlong', constants=dict(base, MaxD=1 if q else 2, MaxDB=4, DimsR={2, 3}, DimsC={1},
                                                   RanksS={2}, Scenarios={'td'}, OWs={False},
                                                   Ops={'Tensordot'}, KindPairs={('real', 'real')})))
